@@ -44,6 +44,15 @@ func mPrintf(format string, a ...any) (int, error) {
 
 var wStdoutLines []string // what go-plugin printed to the plugin's REAL stdout
 
+// a write that reaches the current process's real stdout through its original file although os.Stdout was redirected
+func wWriteRealStdout(s string) {
+	if p := wCurProc(); p != nil {
+		wEvents = append(wEvents, "print")
+		wStdoutLines = append(wStdoutLines, s)
+		p.stdout.write(strings.TrimSuffix(s, "\n"))
+	}
+}
+
 // what the plugin author's code does to write to its stdout / stderr after serving began
 func wPluginWrite(toStderr bool, s string) {
 	f := os.Stdout
